@@ -33,7 +33,10 @@
 (*   - the evaluation points: every parameter ranges over {-1, 0, 1, 2}    *)
 (*     and every number a comparison of the program (or of a function it   *)
 (*     calls) mentions, so branch boundaries are hit exactly;              *)
-(*   - the expected outcome at each point: Run(body, point, FT).           *)
+(*   - how the entry function's non-local names are bound (ScopeModes):    *)
+(*     module globals only, or shadowed by function-level imports / by the *)
+(*     cells of an enclosing factory (AltTab: same names, other meaning);  *)
+(*   - the expected outcome at each point: Run(body, point, EView).        *)
 (* Finish prints program + renamings + points + outcomes as JSON (spec ->  *)
 (* code).  PWTheorem states that the reference translation of module       *)
 (* Piecewise agrees with Run at every point: the property is satisfiable,  *)
@@ -54,6 +57,7 @@ CONSTANTS
     BoolOn,         \* subset of {"and", "or", "not"}
     IteOn,          \* TRUE: conditional expressions
     CallOn,         \* subset of DOMAIN Lib
+    ScopeModes,     \* how the entry function's non-local names are bound: subset of {"plain", "import", "closure", "both"}
     CallModes,      \* how call arguments are bound: subset of {"pos", "kw", "kwrev", "mix", "def", "defkw"}
     AugOn,          \* operators offered for augmented assignments  x op= e   (just outside the translator's subset)
     PassOn,         \* TRUE: an if-branch may be empty (rendered as `pass`): it falls through without binding anything
@@ -65,9 +69,9 @@ CONSTANTS
     CheckPW,        \* TRUE: PWTheorem is evaluated
     EmitOn
 
-VARIABLES params, frames, toks, todo, want, n, used, assigned, done, ok
+VARIABLES params, smode, frames, toks, todo, want, n, used, assigned, done, ok
 
-vars == <<params, frames, toks, todo, want, n, used, assigned, done, ok>>
+vars == <<params, smode, frames, toks, todo, want, n, used, assigned, done, ok>>
 
 \* ---- the function library and the module constants -------------------------------------------
 A == Var("a")  B == Var("b")  X == Var("x")  Y == Var("y")
@@ -88,6 +92,18 @@ Lib ==
 ConstTab == [K |-> ConstDef(RFromInt(4)), H |-> ConstDef(R(1, 2))]
 FT == Lib @@ ConstTab
 
+\* ---- scoping: the SAME names bound differently in an inner scope of the entry function ----------------------------
+\* AltTab holds the inner bindings (module c06alt); the entry function reaches them through function-level imports
+\* (`from c06alt import K_alt as K`) or through the cells of an enclosing factory function (closure).  Only names
+\* the body uses are bound (as in Python).  Callees keep seeing the module's own bindings.
+AltTab ==
+    [K    |-> ConstDef(RFromInt(6)),
+     H    |-> ConstDef(R(1, 4)),
+     sub2 |-> FnDef(<<"a", "b">>, <<Ret(Bin("sub", Bin("mul", B, Num(2)), A))>>),
+     pick |-> FnDef(<<"a", "b">>, <<If(Cmp2("lt", A, B), <<Ret(Bin("add", A, B))>>, <<>>), Ret(Bin("mul", A, Num(3)))>>),
+     kmul |-> FnDef(<<"a">>, <<Ret(Bin("add", A, Num(5)))>>)]
+AltConsts == {x \in DOMAIN AltTab : AltTab[x].k = "const"}
+
 AllParams == <<"a", "b", "c">>
 
 \* ---- construction state ----------------------------------------------------------------------
@@ -96,6 +112,7 @@ TopFrame == [kind |-> "top", stmts |-> <<>>, test |-> BoolLit(TRUE), thenb |-> <
 
 Init ==
     /\ \E ar \in Arities : params = SubSeq(AllParams, 1, ar)
+    /\ smode \in ScopeModes
     /\ frames = <<TopFrame>>
     /\ toks = <<>>
     /\ todo = <<>>
@@ -141,7 +158,7 @@ Start ==
           /\ want' = [k |-> "if", name |-> "", op |-> ""]
           /\ todo' = <<Open("bool", MaxDepth)>>
     /\ toks' = <<>>
-    /\ UNCHANGED <<params, frames, n, used, assigned, done, ok>>
+    /\ UNCHANGED <<params, smode, frames, n, used, assigned, done, ok>>
 
 \* ---- expressions: top-down, one AST node per step, in prefix order -------------------------------
 \* todo: the open nonterminals [t |-> "num" | "bool", d |-> remaining depth]; toks: the tokens so far.
@@ -196,7 +213,7 @@ Expand ==
           /\ toks' = Append(toks, tk)
           /\ todo' = td
     /\ used' = used + 1
-    /\ UNCHANGED <<params, frames, want, n, assigned, done, ok>>
+    /\ UNCHANGED <<params, smode, frames, want, n, assigned, done, ok>>
 
 RECURSIVE Parse(_, _)
 Parse(ts, pos) ==
@@ -228,7 +245,7 @@ Retry ==
     /\ toks' = <<>>
     /\ todo' = <<Open(IF want.k = "if" THEN "bool" ELSE "num", MaxDepth)>>
     /\ used' = used - Len(toks)
-    /\ UNCHANGED <<params, frames, want, n, assigned, done, ok>>
+    /\ UNCHANGED <<params, smode, frames, want, n, assigned, done, ok>>
 
 Commit ==
     /\ Complete /\ Useful
@@ -252,7 +269,7 @@ Commit ==
     /\ todo' = <<>>
     /\ want' = NoWant
     /\ n' = n + 1
-    /\ UNCHANGED <<params, used, done, ok>>
+    /\ UNCHANGED <<params, smode, used, done, ok>>
 
 \* one step: a counting loop over a local that is already bound (two statements).  The loops terminate:
 \* the bound is a parameter or a literal, which the loop body does not assign.
@@ -270,7 +287,7 @@ AddLoop ==
     /\ \E lp \in Loops : frames' = SetCur([Cur EXCEPT !.stmts = Append(@, lp)])
     /\ n' = n + 2
     /\ used' = used + 3
-    /\ UNCHANGED <<params, toks, todo, want, assigned, done, ok>>
+    /\ UNCHANGED <<params, smode, toks, todo, want, assigned, done, ok>>
 
 \* ---- closing blocks ------------------------------------------------------------------------------
 Parent == frames[Len(frames) - 1]
@@ -280,17 +297,17 @@ PopWith(s) == frames' = [SubSeq(frames, 1, Len(frames) - 1) EXCEPT ![Len(frames)
 EndIf ==
     /\ Idle /\ Len(frames) > 1 /\ Cur.kind = "then" /\ (IF PassOn THEN TRUE ELSE Cur.stmts # <<>>)
     /\ PopWith(If(Cur.test, Cur.stmts, <<>>))
-    /\ UNCHANGED <<params, toks, todo, want, n, used, assigned, done, ok>>
+    /\ UNCHANGED <<params, smode, toks, todo, want, n, used, assigned, done, ok>>
 
 StartElse ==
     /\ Idle /\ Len(frames) > 1 /\ Cur.kind = "then" /\ (IF PassOn THEN TRUE ELSE Cur.stmts # <<>>) /\ n < MaxStmts
     /\ frames' = SetCur([Cur EXCEPT !.kind = "else", !.thenb = Cur.stmts, !.stmts = <<>>])
-    /\ UNCHANGED <<params, toks, todo, want, n, used, assigned, done, ok>>
+    /\ UNCHANGED <<params, smode, toks, todo, want, n, used, assigned, done, ok>>
 
 EndElse ==
     /\ Idle /\ Len(frames) > 1 /\ Cur.kind = "else" /\ Cur.stmts # <<>>
     /\ PopWith(If(Cur.test, Cur.thenb, Cur.stmts))
-    /\ UNCHANGED <<params, toks, todo, want, n, used, assigned, done, ok>>
+    /\ UNCHANGED <<params, smode, toks, todo, want, n, used, assigned, done, ok>>
 
 \* ---- what the specification says about a finished program -----------------------------------------
 Body == frames[1].stmts
@@ -303,6 +320,8 @@ Called == CalledFrom(BodyCalls(Body), {})
 
 ValueOfNum(e) == IF e.k = "num" THEN e.v ELSE IF e.name \in DOMAIN ConstTab THEN ConstTab[e.name].v ELSE Zero
 Boundary == {ValueOfNum(e) : e \in BodyCmpNums(Body) \cup UNION {BodyCmpNums(Lib[f].body) : f \in Called \cap DOMAIN Lib}}
+           \cup (IF smode = "plain" THEN {}
+                 ELSE {AltTab[e.name].v : e \in {x \in BodyCmpNums(Body) : x.k = "const" /\ x.name \in AltConsts}})
 BaseVals == {RFromInt(0 - 1), Zero, One, RFromInt(2)}
 GridVals(j) == IF j <= 2 THEN BaseVals \cup Boundary ELSE {One, RFromInt(2)} \cup Boundary
 
@@ -324,10 +343,24 @@ Renamings ==
        \cup (IF k >= 2 THEN {[tag |-> "rot", names |-> rot], [tag |-> "rev", names |-> rev],
                              [tag |-> "part", names |-> part], [tag |-> "dup", names |-> dup]} ELSE {})
 
-Outcome(pt) == LET r == Run(Body, pt, FT) IN [env |-> pt, st |-> r.st, v |-> r.v]
+Used == BodyConsts(Body) \cup BodyCalls(Body)
+Restrict(tab, S) == [x \in DOMAIN tab \cap S |-> tab[x]]
+\* import: every used name that has an inner binding is imported in the function; closure: it is a cell;
+\* both: the constants are imported, the callables are cells
+ImportNames == CASE smode = "import" -> Used \cap DOMAIN AltTab
+                 [] smode = "both" -> Used \cap AltConsts
+                 [] OTHER -> {}
+CellNames   == CASE smode = "closure" -> Used \cap DOMAIN AltTab
+                 [] smode = "both" -> Used \cap (DOMAIN AltTab \ AltConsts)
+                 [] OTHER -> {}
+EntryScopes == <<Restrict(AltTab, ImportNames), Restrict(AltTab, CellNames)>>
+EView == IF smode = "plain" THEN FT ELSE View(EntryScopes, FT)
+
+Outcome(pt) == LET r == Run(Body, pt, EView) IN [env |-> pt, st |-> r.st, v |-> r.v]
 
 Scenario ==
     [t |-> "prog", params |-> params, body |-> Body, calls |-> Called, consts |-> BodyConsts(Body),
+     smode |-> smode, imports |-> ImportNames, cells |-> CellNames,
      rens |-> Renamings,
      pts |-> {Outcome(pt) : pt \in Points}]
 
@@ -335,7 +368,7 @@ IsFirst == n = 0 /\ want.k = "none" /\ ~done
 
 \* ---- theorems ---------------------------------------------------------------------------------------
 Mode == [sim |-> Sim, eq |-> EqOk]
-PWHolds == LET tr == TranslateBody(params, Body, FT, Mode) IN \A pt \in Points : PWAgreesT(tr, Body, FT, pt)
+PWHolds == LET tr == TranslateBody(params, Body, EView, Mode) IN \A pt \in Points : PWAgreesT(tr, Body, EView, pt)
 
 \* Finish completes the program.  The scenario is printed and the theorem evaluated HERE, once per
 \* program (an invariant would be evaluated twice per state by the simulator); the verdict is kept in ok.
@@ -344,7 +377,7 @@ Finish ==
     /\ done' = TRUE
     /\ ok' = /\ (EmitOn => PrintT("@J@" \o ToJson(Scenario) \o "@E@"))
              /\ ((CheckPW /\ ~HasLoop(Body)) => PWHolds)
-    /\ UNCHANGED <<params, frames, toks, todo, want, n, used, assigned>>
+    /\ UNCHANGED <<params, smode, frames, toks, todo, want, n, used, assigned>>
 
 Next == Start \/ Expand \/ Retry \/ Commit \/ AddLoop \/ EndIf \/ StartElse \/ EndElse \/ Finish
 
@@ -356,7 +389,7 @@ PWTheorem == ok
 \* the library is printed once; its functions satisfy the theorem at every grid point
 EmitLib ==
     (EmitOn /\ IsFirst /\ Len(params) = CHOOSE x \in Arities : \A z \in Arities : x <= z)
-        => PrintT("@J@" \o ToJson([t |-> "lib", lib |-> Lib, consts |-> [c \in DOMAIN ConstTab |-> ConstTab[c].v]]) \o "@E@")
+        => PrintT("@J@" \o ToJson([t |-> "lib", lib |-> Lib, alt |-> AltTab, consts |-> [c \in DOMAIN ConstTab |-> ConstTab[c].v]]) \o "@E@")
 
 LibTheorem ==
     (CheckPW /\ IsFirst) =>
